@@ -2,6 +2,7 @@
   Helper lemmas about the pandas column model: decorators, `dropna`, dtype table facts.
 -/
 import VModel.Pandas
+import VModel.PandasGood
 namespace V.Pd
 open V V.Gen
 
